@@ -98,6 +98,17 @@ def _check_codec(ctx, repo):
     for f, fn, lossy in ((enc, "dumps", ("sort_keys", "skipkeys", "default", "check_circular", "allow_nan")), (dec, "loads", ("object_hook", "object_pairs_hook", "parse_float", "parse_int", "parse_constant"))):
         ctx.instance("C20-R6", f.fq)
         calls = [c for c in calls_in(f.node) if dotted(c.func) == f"json.{fn}"]
+        if fn == "dumps":
+            # the same encoding spelled through the encoder object: <JSONEncoder subclass of this module>(options).encode(value)
+            # (json.dumps(v, cls=E, **kw) is E(**kw).encode(v)); its constructor keywords are the options
+            encs = {c.name for c in repo.module(WS).classes.values() if any(dotted(b) in ("json.JSONEncoder", "JSONEncoder") for b in c.bases)} | {"JSONEncoder"}
+            for c in calls_in(f.node):
+                if isinstance(c.func, ast.Attribute) and c.func.attr == "encode" and isinstance(c.func.value, ast.Call) and not c.func.value.args and \
+                        (dotted(c.func.value.func) or "").split(".")[-1] in encs and not c.keywords:
+                    c2 = ast.copy_location(ast.Call(func=c.func, args=c.args, keywords=c.func.value.keywords), c)
+                    c2._parent = getattr(c, "_parent", None)
+                    c2._same_as = c
+                    calls.append(c2)
         p0 = f.params()[0]
         ok = len(calls) == 1 and calls[0].args and isinstance(calls[0].args[0], ast.Name) and calls[0].args[0].id == p0
         ctx.ob("C20-R6", f.fq, f"one json.{fn} call on the function's argument, unmodified", bool(ok), node=f.node, construct=f"json.{fn} on the argument itself",
@@ -108,7 +119,7 @@ def _check_codec(ctx, repo):
                    construct=f"json.{fn} option {bad[0] if bad else ''}",
                    msg=f"json.{fn}(..., {bad[0] if bad else ''}=...) changes the encoded value: sort_keys reorders dictionary entries and raises TypeError on mixed key types, skipkeys silently drops entries, hooks rewrite values")
         rets = [r for r in walk_local(f.node) if isinstance(r, ast.Return)]
-        ctx.ob("C20-R6", f.fq, f"the result of json.{fn} is returned as it is", len(rets) == 1 and rets[0].value in calls, node=f.node, construct=f"json.{fn} result returned unmodified")
+        ctx.ob("C20-R6", f.fq, f"the result of json.{fn} is returned as it is", len(rets) == 1 and any(rets[0].value is c or rets[0].value is getattr(c, "_same_as", None) for c in calls), node=f.node, construct=f"json.{fn} result returned unmodified")
 
 
 def _check_routes(ctx, repo):
